@@ -30,6 +30,15 @@ DIGEST_PLAN = {'quick': (5, 7, 1), 'thorough': (4, 7, 1)}
 SEEDS = {'quick': ['1', 'random'], 'thorough': ['0', '1', '2', '3', '4', '5', '6', 'random']}
 
 
+def _two_histories_inside(tree):
+    T = Tree(flatten(tree, 'asc', 0))
+    for n in T.order:
+        kids = T.children(n)
+        if n != T.root and len([c for c in kids if T.kind(c) in ('HS', 'HD')]) == 2 and len(kids) >= 4:
+            return True
+    return False
+
+
 def base_spec(task):
     tree, scheme, ivar, k = task[:4]
     spec = add_scheme_S(flatten(tree, scheme, ivar), send_subset=True, counter=True)
@@ -219,6 +228,12 @@ def run(tier, seed):
     for tree in skeletons(3, MIXED_MAX[tier]):
         if "'O'" in repr(tree):
             tasks.append((tree, 'asc', 0, '3m', 'variants-lite'))
+    # two history states in one compound state that can be left and re-entered (which of the two is declared
+    # first must not matter)
+    for n in (6, 7):
+        for tree in skeletons(n, n, require='multihist', max_hist=2):
+            if _two_histories_inside(tree):
+                tasks.append((tree, 'asc', 0, 1, 'variants' if n == 6 or tier == 'thorough' else 'variants-lite'))
     tasks.sort(key=lambda t: -len(repr(t[0])))
     results = harness.pmap(work, tasks, chunksize=2)
     agg = harness.Agg()
